@@ -129,6 +129,21 @@ struct StackPointerOffsetAnalysis {
 }
 
 impl StackPointerOffsetAnalysis {
+    // True for the stack pointer itself, plus or minus constants.
+    fn is_constant_displacement(&self, expression: &il::Expression) -> bool {
+        match *expression {
+            il::Expression::Scalar(ref scalar) => *scalar == self.stack_pointer,
+            il::Expression::Add(ref lhs, ref rhs) => {
+                (self.is_constant_displacement(lhs) && rhs.get_constant().is_some())
+                    || (lhs.get_constant().is_some() && self.is_constant_displacement(rhs))
+            }
+            il::Expression::Sub(ref lhs, ref rhs) => {
+                self.is_constant_displacement(lhs) && rhs.get_constant().is_some()
+            }
+            _ => false,
+        }
+    }
+
     // Handle an operation for stack pointer offset analysis
     fn handle_operation(
         &self,
@@ -142,9 +157,14 @@ impl StackPointerOffsetAnalysis {
                     match stack_pointer_offset {
                         IntermediateOffset::Top => IntermediateOffset::Top,
                         IntermediateOffset::Value(ref constant) => {
-                            let expr =
-                                src.replace_scalar(&self.stack_pointer, &constant.clone().into())?;
-                            if expr.all_constants() {
+                            // Substituting the offset for the stack pointer is
+                            // only meaningful when the stack pointer is moved
+                            // by a constant. Anything else (masking, loading a
+                            // constant or another register) loses the relation
+                            // to the value at function entry.
+                            if self.is_constant_displacement(src) {
+                                let expr = src
+                                    .replace_scalar(&self.stack_pointer, &constant.clone().into())?;
                                 IntermediateOffset::Value(eval(&expr)?)
                             } else {
                                 IntermediateOffset::Top
